@@ -149,6 +149,12 @@ def fg_id_numpy(  # noqa: PLR0913
         if current_p_id_einstandspartner >= 0:
             p_id_to_fg_id[current_p_id_einstandspartner] = next_fg_id
 
+            # The children of the einstandspartner belong to the same fg. They need to be
+            # collected here because the einstandspartner is not visited again.
+            current_p_id_children = current_p_id_children + p_id_to_p_ids_children.get(
+                current_p_id_einstandspartner, []
+            )
+
         # Assign fg to children
         for current_p_id_child in current_p_id_children:
             child_index = p_id_to_index[current_p_id_child]
